@@ -1271,6 +1271,7 @@ int yylex () {
   register char c;
 
   yytext[0] = 0;
+  wide_char_literal = 0;	/* set by an L prefix, for the literal scanned in this call only */
 
   partp = partial;
   partial[0] = 0;
@@ -2585,6 +2586,7 @@ void start_new_file (int fd, const char* pre_text) {
   pragmas = DEFAULT_PRAGMAS;
   nexpands = 0;
   incnum = 0;
+  function_flag = 0;
   current_line = 1;
   current_line_base = 0;
   current_line_saved = 0;
